@@ -20,6 +20,7 @@
   permutation of fused positions that the fused index's sorted table describes".
 -/
 import SymmModel.Proofs.Dense4b
+import SymmModel.Proofs.Dense4c
 import SymmModel.Props.C08All2
 
 namespace SymmModel.C08
@@ -178,6 +179,28 @@ theorem reshape_toDense_one_call [Zero R] [Neg R] (a : Arr R) (ns full : List In
     · exact Or.inl h
     · exact Or.inr ⟨p, hp, hval⟩
 
+/-! ## 3. single-operand einsum at dense level -/
+
+/-- **einsum, permutation equations** (`"ijk->kij"`: no repeated label, every label kept): the
+    dense form of `einsum` is `np.einsum` of the dense form, i.e. the transposed dense array with
+    `perm[k]` = position in `lhs` of the `k`-th output label.  Lifted from `C02.einsumA_elem`. -/
+theorem einsum_perm_toDense [AddMonoid R] [Neg R] (a : Arr R) (lhs rhs : List Nat)
+    (hnd : lhs.Nodup) (hndr : rhs.Nodup) (h1 : ∀ q ∈ lhs, q ∈ rhs) (h2 : ∀ q ∈ rhs, q ∈ lhs)
+    (hl : lhs.length = a.ndim) (hv : a.validB = true) (hf : a.fermi = false) (hne : NoEmpty a) :
+    ∃ c dA dC, einsumA a lhs rhs = .ok c ∧ c.indices = permuted a.indices (einPermOf lhs rhs)
+      ∧ toDenseA a = .ok dA ∧ toDenseA c = .ok dC ∧ dA.shape = a.shape
+      ∧ dC.shape = permuted a.shape (einPermOf lhs rhs)
+      ∧ ∀ p, inBox a.shape p = true → dC.get (permuted p (einPermOf lhs rhs)) = dA.get p :=
+  einsum_perm_toDense_main a lhs rhs hnd hndr h1 h2 hl hv hf hne
+
+/-- … and `np.einsum` on the dense array computes exactly that (`Blk.einsumK`, via
+    `C02.einsumK_get`: no traced label, so the sum has the single term at the assembled index) -/
+theorem einsum_perm_dense_kernel [AddMonoid R] (d : Blk R) (lhs rhs : List Nat)
+    (h1 : ∀ q ∈ lhs, q ∈ rhs) (i : List Nat) (hi : inBox (d.einsumK lhs rhs).shape i = true) :
+    (d.einsumK lhs rhs).get i = d.get (TdotP.einIdx lhs rhs i []) := by
+  rw [C02.einsumK_get d lhs rhs i hi, einTraced_nil h1]
+  simp [allIdx]
+
 /-
   NOT proved (stated here as the remaining targets):
   * `reshape_toDense` for plans with several calls (`callsR runs` with runs separated by kept
@@ -187,8 +210,9 @@ theorem reshape_toDense_one_call [Zero R] [Neg R] (a : Arr R) (ns full : List In
     array is valid (C01 `fuseCore_valid`, `unfuseA_valid`), but the composed relation needs an
     induction over the calls that was not carried out.  At CONTENT level (same multiset of
     non-zero dense entries) every certified plan is covered by `reshape_toDense_content` (part 3).
-  * single-operand `einsum` at dense level (`np.einsum(eq, dense a) = dense (einsum eq a)`) beyond
-    the matrix trace (`trace_toDense`): `C02.einsumA_elem` gives the value view as a double sum
+  * single-operand `einsum` at dense level (`np.einsum(eq, dense a) = dense (einsum eq a)`) with
+    traced labels, beyond the matrix trace (`trace_toDense`, part 3) and the permutation
+    equations (`einsum_perm_toDense`): `C02.einsumA_elem` gives the value view as a double sum
     over stored sectors and the traced offsets box; lifting it needs the re-indexing of the dense
     traced box into (charge, offset) pairs for several traced labels at once (the analogue of
     `sum_locateAll_reindex` restricted to the traced axes, with equal charge tables on each traced
@@ -221,13 +245,20 @@ example := fuse_toDense (R := Int) x [[0, 1]] (by decide) (by decide) rfl (by de
   (by decide +kernel)
 example := fuse_toDense (R := Int) y [[0, 1]] (by decide) (by decide) rfl (by decide) yf rfl
   (by decide +kernel)
--- unfusing gives the matrix back; for `yf` the unfused box is 2×2 (the table lists only (1,1))
+-- unfusing gives the matrix back (the sub-indices keep all their charges: the unfused box is 3×3
+-- for `yf` too, the positions of the unlisted sub-sector (0,0) hold 0)
 example : dataOf (unfuseA xf 0 >>= toDenseA) = some ([3, 3], [5, 0, 0, 0, 1, 2, 0, 3, 4])
     ∧ dataOf (unfuseA yf 0 >>= toDenseA) = some ([3, 3], [0, 0, 0, 0, 10, 20, 0, 30, 40]) := by
   decide +kernel
 example (ix : Index) (subs : List Index) (exts : Extents) (h1 : xf.indices[0]? = some ix)
     (h2 : ix.sub = some (subs, exts)) (y' : Arr Int) (hy : unfuseA xf 0 = .ok y') (hn : NoEmpty y') :=
   unfuse_toDense (R := Int) xf 0 ix subs exts (by decide +kernel) rfl h1 h2 (by decide +kernel) y' hy hn
+-- einsum "ij->ji"
+example : einPermOf [0, 1] [1, 0] = [1, 0] := by decide
+example : dataOf (einsumA x [0, 1] [1, 0] >>= toDenseA) = some ([3, 3], [5, 0, 0, 0, 1, 3, 0, 2, 4]) := by
+  decide +kernel
+example := einsum_perm_toDense (R := Int) x [0, 1] [1, 0] (by decide) (by decide) (by decide)
+  (by decide) rfl (by decide) rfl (by decide)
 -- reshape (3,3) → (9,) is that fuse call
 example : calcReshapeArgs x.shape [9] x.subsizes = .ok ([], [[[0, 1]]], []) := by decide +kernel
 example : dataOf (reshapeArr x [9] >>= toDenseA) = some ([5], [5, 1, 2, 3, 4]) := by decide +kernel
